@@ -1,5 +1,6 @@
 import JokerVerif.Drive.Common
 import JokerVerif.Model.Kernel
+import JokerVerif.Model.Units
 /-! Driver handlers for C01 C03 C04 C07: the kernel evaluated exactly over `ℚ`
 (every IEEE double is a rational; inputs arrive as 64-bit patterns). -/
 open Lean Drive
@@ -82,8 +83,27 @@ def slotsOp : H := fun j => do
   let sl := Kernel.slots pr
   return Json.mkObj [("mu", jRats (sl.map (·.1))), ("lam", jRats (sl.map (·.2)))]
 
+/-- parse "p/q" or "p" -/
+def parseRat (s : String) : Except String Rat :=
+  match s.splitOn "/" with
+  | [p] => match p.toInt? with
+    | some a => .ok (a : Rat)
+    | none => .error s!"bad rational {s}"
+  | [p, q] => match p.toInt?, q.toNat? with
+    | some a, some b => if b == 0 then .error "zero denominator" else .ok ((a : Rat) / (b : Rat))
+    | _, _ => .error s!"bad rational {s}"
+  | _ => .error s!"bad rational {s}"
+
+/-- `Quantity.to_value`: value (double bits) in a unit of exact rational scale, converted to a target scale -/
+def unitsConvOp : H := fun j => do
+  let v ← getRat j "value"
+  let sc ← parseRat (← getStr j "scale")
+  let tg ← parseRat (← getStr j "target")
+  if tg == 0 then throw "zero target scale"
+  return Json.mkObj [("value", jRat (Units.conv ⟨v, sc⟩ tg))]
+
 def kernelOps : List (String × H) :=
   [("kernel.eval", kernelEvalOp), ("kernel.lambdaK", lambdaKOp), ("kernel.designRow", designRowOp),
-   ("kernel.slots", slotsOp)]
+   ("kernel.slots", slotsOp), ("units.conv", unitsConvOp)]
 
 end Drive
